@@ -267,6 +267,9 @@ func runHTTPScenario(t *testing.T, sc hScenario) (lines []M, problem string) {
 			case "retryx":
 				// the default policy of the adapter: when the retries run out the caller gets an ExceededError carrying the last response
 				ps = append(ps, failsafehttp.RetryPolicyBuilder().WithMaxRetries(sc.MaxRetries).Build())
+			case "retryrd":
+				// a random delay is configured as well: the server's Retry-After (the delay function) still has to win
+				ps = append(ps, failsafehttp.RetryPolicyBuilder().WithMaxRetries(sc.MaxRetries).ReturnLastFailure().WithRandomDelay(unit/100, unit/50).Build())
 			case "retrybo":
 				// a backoff is configured as well: the server's Retry-After (the delay function) still has to win
 				ps = append(ps, failsafehttp.RetryPolicyBuilder().WithMaxRetries(sc.MaxRetries).ReturnLastFailure().WithBackoff(unit/10, unit/2).Build())
@@ -534,12 +537,14 @@ func runGRPCScenario(t *testing.T, sc hScenario) (lines []M, problem string) {
 		var sameReply bool
 		if sc.Grpc == "client" {
 			ic := failsafegrpc.NewUnaryClientInterceptorWithExecutor[any](ex)
+			var hdr metadata.MD
 			gotErr = ic(ctx, "/svc/M", reqArg, replyArg, nil, func(c context.Context, method string, req, reply any, cc *grpc.ClientConn, opts ...grpc.CallOption) error {
 				l := check(c, req)
-				l["sameArgs"] = l["sameArgs"].(bool) && reply == any(replyArg) && method == "/svc/M"
+				// the caller's call options reach every attempt
+				l["sameArgs"] = l["sameArgs"].(bool) && reply == any(replyArg) && method == "/svc/M" && len(opts) == 1
 				lines = append(lines, l)
 				return respond()
-			})
+			}, grpc.Header(&hdr))
 			sameReply = true
 		} else {
 			ic := failsafegrpc.NewUnaryServerInterceptorWithExecutor[any](ex)
